@@ -142,10 +142,14 @@ Theorem roundtrip_serialised_js :
 Proof. intros A B OA OB LA f H strict Hm. exact (ser_roundtrip_js_all LA f H strict Hm). Qed.
 Print Assumptions roundtrip_serialised_js.
 
-(** encoding/json on the leaves of Go-typed values is such a map (instances of DiffMerge/GInst.v, the ones the
-    harness evaluates). *)
-Theorem json_leaves_hom : forall f1 f2, atom_laws (sops f1) /\ atom_laws (wops f2) /\ atom_hom (sops f1) (wops f2) ser.
-Proof. intros f1 f2. exact (conj (sops_laws f1) (conj (wops_laws f2) (ser_hom f1 f2))). Qed.
+(** encoding/json on the leaves of Go-typed values is such a map, for the instances of DiffMerge/GInst.v the
+    harness evaluates: [dl], [ml] are the pass-through lists of diff.markReplaced and merge.mergeReplaced, which
+    the harness reads from the sources on every run; [lists_ok] (evaluated on them, component 10) says that
+    whatever markReplaced sends raw arrives as a JSON leaf mergeReplaced passes through. *)
+Theorem json_leaves_hom :
+  forall (dl ml : list string) (f1 f5 : bool) (t : table) (f2 : bool), lists_ok dl ml = true ->
+  atom_laws (sopsL dl f1 f5 t) /\ atom_laws (wopsL ml f2) /\ atom_hom (sopsL dl f1 f5 t) (wopsL ml f2) ser.
+Proof. intros dl ml f1 f5 t f2 H. exact (conj (sopsL_laws dl f1 f5 t) (conj (wopsL_laws ml f2) (ser_homL dl ml f1 f5 t f2 H))). Qed.
 Print Assumptions json_leaves_hom.
 
 (** The current diffMap off the strict domain: an explicit nil "__key" facing an absent one puts the
@@ -298,6 +302,9 @@ Theorem clients_differ_on_ill_formed_deltas :
   /\ (exists p d r, VMerge (O := wops false) p d = None /\ VMergeJS (O := wops false) p d = r).
 Proof. exact clients_differ_witness. Qed.
 Print Assumptions clients_differ_on_ill_formed_deltas.
+
+Example lists_ok_as_in_the_tree : lists_ok default_passthrough default_passthrough = true.
+Proof. reflexivity. Qed.
 
 (** Non-vacuity of the abstract part: Go-typed values (int64 and float64 ones differ for Diff, [[]byte] and a
     named string are wrapped, a fractional float), the delta, its serialisation, and both merges. *)
